@@ -67,6 +67,25 @@ add("C07", "model_checking",
     "dimensionality algebra is compared; explain(), labels, and the nature of every leaf are checked on the same "
     "objects.", "Non-arithmetic operators are only checked structurally.")
 
+add("C05", "model_checking",
+    "Symbolic execution of ModelingUpdate(changes, simulation_date) on real systems with symbolic new values: the "
+    "solver enumerates the outcomes (success, rejection by date/period checks, every raising update function reached "
+    "as a feasible branch); on every path, raised or not, and after every set/reset toggle sequence, a full snapshot "
+    "of the baseline is compared by object identity, by solver-checked physical value, and by graph edges/links.",
+    "Dates concrete (first/interior/last/before/after/naive); change lists of 1-2 changes; toggle sequences <= 3.")
+add("C06", "model_checking",
+    "Differential symbolic execution: the simulated twins of a dated ModelingUpdate are compared, hour by hour and by "
+    "the solver, with a second system to which the same change list is really applied; pairing of values_to_recompute/"
+    "recomputed_values and twins, absence of earlier hours for interior dates, completeness of the recomputed set, and "
+    "rejection of dates outside the period / naive dates.",
+    "Equality clause only for the first modelled hour (as stated); shared-job skeletons excluded (known finding R1).")
+add("C09", "model_checking",
+    "Symbolic execution of the operator methods of ExplainableQuantity / ExplainableHourlyQuantities / "
+    "EmptyExplainableObject themselves (no system): symbolic magnitudes and cells over a menu of units and index "
+    "shapes; z3 decides the result against a per-time-stamp base-unit oracle, dimension algebra, unchanged operands, "
+    "commutativity, additivity of sums, and the contracts of sum/max/abs/ceil/round/neg/shift/element-wise max-min.",
+    "Unsupported operand combinations may raise; hourly subtraction only on equal indexes.")
+
 NA_REASONS = {}
 
 
